@@ -340,13 +340,26 @@ impl Gen {
                                 // whole-text offsets are what range compression looks for; almost-whole neighbours must not be merged
                                 let len = pe - pb;
                                 let whole = pattern == 0 || (pattern == 1 && i != odd_one);
-                                let begin = if !whole && len >= 2 && rng.chance(1, 6) { Cur::B(1) } else { Cur::B(0) };
-                                let end = match if whole { 0 } else { rng.below(6) } {
-                                    0 | 1 => Cur::E(0),
-                                    2 | 3 => Cur::B(len),
-                                    4 if len >= 2 => Cur::E(-1),
-                                    _ if len >= 2 => Cur::B(len - 1),
-                                    _ => Cur::E(0),
+                                // the odd one out (pattern 1) is whole but for ONE cursor: every such shape, so that each test of the merge is exercised
+                                let (begin, end) = if pattern == 1 && !whole && len >= 2 {
+                                    match rng.below(6) {
+                                        0 => (Cur::B(1), Cur::E(0)),
+                                        1 => (Cur::B(1), Cur::B(len)),
+                                        2 => (Cur::B(0), Cur::E(-1)),
+                                        3 => (Cur::B(0), Cur::B(len - 1)),
+                                        4 => (Cur::E(-(len as isize)), Cur::E(0)), // whole, written with an end-aligned begin
+                                        _ => (Cur::B(0), Cur::B(len)),              // whole, written with a begin-aligned end
+                                    }
+                                } else {
+                                    let begin = if !whole && len >= 2 && rng.chance(1, 6) { Cur::B(1) } else { Cur::B(0) };
+                                    let end = match if whole { 0 } else { rng.below(6) } {
+                                        0 | 1 => Cur::E(0),
+                                        2 | 3 => Cur::B(len),
+                                        4 if len >= 2 => Cur::E(-1),
+                                        _ if len >= 2 => Cur::B(len - 1),
+                                        _ => Cur::E(0),
+                                    };
+                                    (begin, end)
                                 };
                                 subs.push(SelReq::Ann(self.r_ann(rng, m, *h), Some(Off { begin, end })));
                                 continue;
